@@ -966,6 +966,9 @@ for _nm, _keys in (("SXIFilter", ("grow-only-this-name",)), ("full", tuple(_IFIL
             )
         },
         ghost_vars={"HC1": (Map(Ref("SXGlyph"), List(Ref("SXComponent"))), "self.heap_components")},
+        # (ext-C19-C09, second wave) paths of `if glyph is not None:` kept apart: the ite-merge put the callee's quantified ensures
+        # into the CONDITION of the merged heap (ite(<forall ...>, H', H)), on which inv.step.done / inv.step.others timed out
+        merge_branches=False,
     )
 
 # The two result cases of the filter compose to "no master is left with a reference to a skipped glyph".  The step from
@@ -1426,3 +1429,115 @@ def _b_pre_ds(d):
 CONTRACTS["ufo2ft._compilers.baseCompiler:BaseCompiler.preprocess#one-ufo"].runtime = Runtime(_res_cases, _b_pre_one)
 CONTRACTS["ufo2ft._compilers.baseCompiler:BaseCompiler.preprocess#ufo-list"].runtime = Runtime(_res_cases, _b_pre_list)
 CONTRACTS["ufo2ft._compilers.baseCompiler:BaseInterpolatableCompiler._pre_compile_designspace"].runtime = Runtime(_res_cases, _b_pre_ds)
+
+
+# =====================================================================================================
+# The order lemma:  official_order(N - S, O) == [x for x in official_order(N, O) if x not in S]
+# (the glyph order of the font compiled without the skipped glyphs S is the old order with S struck out; official_order is
+# the spec function makeOfficialGlyphOrder is proved equal to, contract `makeOfficialGlyphOrder#explicit`).
+# Proved by hand-made inductions: every induction is a base lemma + a step lemma whose hypotheses contain the statement at
+# the predecessor; the "for all" statements are kept as templates (_STMT) and every use of an already proved statement is
+# produced from its template by substitution (_inst), so a hypothesis IS an instance of a proved conclusion.
+# vcheck/hooks/c13.py evaluates every one of these lemmas natively on a small scope (guards against a mis-stated lemma and
+# shows that the hypotheses are satisfiable) and still enumerates the end statement.
+# =====================================================================================================
+@specfn(List(STR), L=List(STR), S=Set(STR), n=INT)
+def sx_keep_upto(L, S, n):
+    """[x for x in L[:n] if x not in S], by recursion on n (the state of the comprehension's loop after n elements)"""
+    if n <= 0:
+        return []
+    prev = sx_keep_upto(L, S, n - 1)
+    x = L[n - 1]
+    if x not in S:
+        return prev + [x]
+    return prev
+
+
+@specfn(List(STR), L=List(STR), S=Set(STR))
+def sx_keep(L, S):
+    """[x for x in L if x not in S]"""
+    return sx_keep_upto(L, S, len(L))
+
+
+def _inst(template, **sub):
+    """the clause `template` with its variables replaced by the given expressions (mechanical instantiation)"""
+    import ast as _ast
+
+    class _Sub(_ast.NodeTransformer):
+        def visit_Name(self, node):
+            if node.id in sub:
+                return _ast.parse("(" + sub[node.id] + ")", mode="eval").body
+            return node
+
+    return _ast.unparse(_Sub().visit(_ast.parse(template, mode="eval")))
+
+
+_STMT = {
+    # (a) sx_keep_upto(L, S, n) reads L[:n] only                                           for all A, B, S and n <= len(A)
+    "prefix": "sx_keep_upto(A + B, S, n) == sx_keep_upto(A, S, n)",
+    # (b) the filter distributes over concatenation                                        for all A, B, S and 0 <= m <= len(B)
+    "concat-upto": "sx_keep_upto(A + B, S, len(A) + m) == sx_keep(A, S) + sx_keep_upto(B, S, m)",
+    "concat": "sx_keep(A + B, S) == sx_keep(A, S) + sx_keep(B, S)",                      # for all A, B, S
+    # (c) striking S out of the listed part == listing against the smaller set            for all O, T, S and i <= len(O)
+    "firsts": "sx_keep(firsts(O, T, i), S) == firsts(O, T - S, i)",
+    # (d) striking S out of the sorted remainder == sorting the smaller set                for all FINITE R and all S
+    "sorted": "sx_keep(sorted(R), S) == sorted(R - S)",
+}
+# TRUSTED about the library function `sorted` applied to a finite set X of strings: it is the increasing enumeration of X
+# (Python: "a new sorted list from the items"; ascending, a permutation), used in this recursive form:
+#   sorted(X) == []                         if X is empty
+#   sorted(X) == sorted(X - {m}) + [m]      if m is the greatest element of X
+# (conformance of both clauses with the real `sorted` is enumerated in the hook).  Nothing else is assumed about `sorted`.
+SORTED_TRUSTED = {
+    "sorted-empty": "implies(all(False for x in X), sorted(X) == [])",
+    "sorted-greatest-last": "implies(m in X and all(x <= m for x in X), sorted(X) == sorted(X - {m}) + [m])",
+}
+_LS = {"A": List(STR), "B": List(STR), "S": Set(STR)}
+_FV = {"O": List(STR), "T": Set(STR), "S": Set(STR)}
+_RV = {"R": Set(STR), "S": Set(STR)}
+_ORD = ["C13"]
+
+# (a) induction on n
+lemma("C13.ord.prefix.base", props=_ORD, vars={**_LS, "n": INT}, hyps=["n <= 0"],
+      concl={"eq": _STMT["prefix"]}, canaries={"nonempty": "len(sx_keep_upto(A, S, n)) > 0"})
+lemma("C13.ord.prefix.step", props=_ORD, vars={**_LS, "n": INT}, hyps=["0 <= n", "n < len(A)", _STMT["prefix"]],
+      concl={"eq": _inst(_STMT["prefix"], n="n + 1")}, canaries={"drops": "sx_keep_upto(A, S, n + 1) == sx_keep_upto(A, S, n)"})
+# (b) induction on m; the base case is (a) at n = len(A)
+lemma("C13.ord.concat.base", props=_ORD, vars=_LS, hyps=[_inst(_STMT["prefix"], n="len(A)")],
+      concl={"eq": _inst(_STMT["concat-upto"], m="0")}, canaries={"empty": "sx_keep(A, S) == []"})
+lemma("C13.ord.concat.step", props=_ORD, vars={**_LS, "m": INT}, hyps=["0 <= m", "m < len(B)", _STMT["concat-upto"]],
+      concl={"eq": _inst(_STMT["concat-upto"], m="m + 1")}, canaries={"drops": "sx_keep_upto(B, S, m + 1) == sx_keep_upto(B, S, m)"})
+lemma("C13.ord.concat", props=_ORD, vars=_LS, hyps=[_inst(_STMT["concat-upto"], m="len(B)")],
+      concl={"eq": _STMT["concat"]}, canaries={"empty": "sx_keep(A + B, S) == []"})
+# (c) induction on i (firsts is spec.firsts: the names of T among O[:i], each at its first occurrence)
+lemma("C13.ord.firsts.base", props=_ORD, vars={**_FV, "i": INT}, hyps=["i <= 0"],
+      concl={"eq": _STMT["firsts"]}, canaries={"nonempty": "len(firsts(O, T, i)) > 0"})
+lemma("C13.ord.firsts.step", props=_ORD, vars={**_FV, "i": INT},
+      hyps=["0 <= i", "i < len(O)", _STMT["firsts"], _inst(_STMT["concat"], A="firsts(O, T, i)", B="[O[i]]")],
+      concl={"eq": _inst(_STMT["firsts"], i="i + 1")},
+      canaries={"drops": "firsts(O, T - S, i + 1) == firsts(O, T - S, i)", "takes": "firsts(O, T - S, i + 1) == firsts(O, T, i + 1)"})
+# (d) induction on the finite set R: empty, or R - {m} plus its greatest element m (every non-empty finite set of strings has one)
+lemma("C13.ord.sorted.base", props=_ORD, vars=_RV,
+      hyps=["all(False for x in R)", _inst(SORTED_TRUSTED["sorted-empty"], X="R"), _inst(SORTED_TRUSTED["sorted-empty"], X="R - S")],
+      concl={"eq": _STMT["sorted"]}, canaries={"nonempty": "len(sorted(R - S)) > 0"})
+lemma("C13.ord.sorted.step", props=_ORD, vars={**_RV, "m": STR},
+      hyps=["m in R", "all(x <= m for x in R)",
+            _inst(SORTED_TRUSTED["sorted-greatest-last"], X="R"), _inst(SORTED_TRUSTED["sorted-greatest-last"], X="R - S"),
+            _inst(_STMT["sorted"], R="R - {m}"),                                   # induction hypothesis
+            _inst(_STMT["concat"], A="sorted(R - {m})", B="[m]")],
+      concl={"eq": _STMT["sorted"]},
+      canaries={"dropped": "sorted(R - S) == sorted((R - {m}) - S)", "kept": "sorted(R - S) == sorted((R - {m}) - S) + [m]"})
+# composition: official_order = notdef_head + firsts(O, names, len(O)) + sorted(names not listed)
+_oW = "without_notdef(N)"
+_oH = "notdef_head(N)"
+_oF = f"firsts(O, {_oW}, len(O))"
+_oR = f"{_oW} - elems_upto(O, len(O))"
+_oZ = f"sorted({_oR})"
+lemma("C13.ord.order", props=_ORD, vars={"N": Set(STR), "S": Set(STR), "O": List(STR)},
+      hyps=[_inst(_STMT["firsts"], T=_oW, i="len(O)"),
+            _inst(_STMT["sorted"], R=_oR),                                        # N (a font's glyph names) is finite
+            _inst(_STMT["concat"], A=f"{_oH} + {_oF}", B=_oZ),
+            _inst(_STMT["concat"], A=_oH, B=_oF)],
+      concl={"order": "official_order(N - S, O) == sx_keep(official_order(N, O), S)"},
+      canaries={"nothing-skipped": "official_order(N - S, O) == official_order(N, O)"})
+ORDER_LEMMAS = ["prefix.base", "prefix.step", "concat.base", "concat.step", "concat", "firsts.base", "firsts.step", "sorted.base", "sorted.step", "order"]
